@@ -95,3 +95,31 @@ pub fn require_nonvacuous(rep: &mut Report) {
         rep.machinery(format!("vacuous run: distinct_nontrivial={nt} distinct_outcomes={oc}"));
     }
 }
+
+
+/// The "ambient" family of an E1 check: every case with at most `k` deviations from the all-default case, where one of
+/// the dimensions is an ambient variation of the program (noise attributes, modules, item order, noise items,
+/// attribute style) that the property's verdict must not depend on.
+pub fn ambient_family<G, C>(rep: &mut Report, name: &str, k: usize, gen_only: G, check: C)
+where
+    G: Fn(&mut crate::explore::Chooser) + Sync,
+    C: Fn(&mut crate::explore::Chooser, &mut Acc) + Sync,
+{
+    use crate::explore::{explore, Mode};
+    let n = crate::prog::AMBIENTS.len();
+    let (accs, stats) = explore(
+        |ch| {
+            ch.choose("ambient", n);
+            gen_only(ch);
+        },
+        |ch, acc: &mut Acc| {
+            let amb = ch.choose("ambient", n);
+            crate::refmodel::with_ambient(amb, || check(ch, acc));
+        },
+        Mode::Deviations(k),
+        2,
+        crate::report::threads(),
+        u64::MAX,
+    );
+    merge(rep, name, accs, &stats, serde_json::json!({"ambient_variations": crate::prog::AMBIENTS, "max_deviations_from_the_default_case": k, "note": "the ambient variation counts as one deviation"}));
+}
